@@ -82,7 +82,7 @@ func emit(out *bufio.Writer, mon *bufio.Writer, id string, s SchedCfg, c *Cluste
 
 func main() {
 	if len(os.Args) < 2 {
-		fmt.Fprintln(os.Stderr, "usage: cluster gen|replay ...")
+		fmt.Fprintln(os.Stderr, "usage: cluster gen|replay|scene ...")
 		os.Exit(2)
 	}
 	out := bufio.NewWriterSize(os.Stdout, 1<<20)
@@ -119,6 +119,22 @@ func main() {
 			tr2 := newTraceWriter()
 			runOps(s, c.sched, tr2)
 			emit(out, mon, fmt.Sprintf("r%d", i), s, c, first, tr2.bytes())
+		}
+	case "scene":
+		// scene <name> <cfg line>: prints the schedule the scene executed (see scenes.go)
+		s := parseSchedCfg(strings.Join(os.Args[3:], " "))
+		c := newCluster(s, newTraceWriter())
+		x := &gen{g: rand.New(rand.NewSource(s.Seed ^ 0x5eed)), c: c}
+		for i := 0; i < 3*s.Base.ET && x.leader() == nil; i++ {
+			c.exec("tickall")
+			c.exec("flush 3")
+		}
+		scenes[os.Args[2]](x)
+		c.exec("unblock")
+		c.exec("heal")
+		fmt.Fprintln(out, s.String())
+		for _, op := range c.sched {
+			fmt.Fprintln(out, op)
 		}
 	case "replay":
 		data, err := os.ReadFile(os.Args[2])
